@@ -1,21 +1,29 @@
-import hashlib
 import os
 import shutil
 
-from vlib.core import Check, Family, Lock, REPO, BUILD, HARNESS, GOENV, run
+from vlib.core import Check, Family, Internal, Lock, REPO, HARNESS, GOENV, run
 
 
 def build_ow_single(check, ctx):
-    """Builds the REAL cmd/ow-single of the tree under test (from the harness module, so that the replace directive
-    selects /repo or the OW_REPO scratch copy) and hands its path to the JSON family (`owsingle=<path>`): a sample of the
+    """Builds the REAL cmd/ow-single of the tree under test (from a harness module whose replace directive selects
+    /repo or the OW_REPO scratch copy) and hands its path to the JSON family (`owsingle=<path>`): a sample of the
     generated requests is piped through the binary — exit status 0, stdout = exactly one JSON document, the same one
     RunSingleModelJSON(…, true) writes in process."""
-    hdir = HARNESS
-    if os.path.realpath(REPO) != "/repo":
-        hdir = os.path.join(BUILD, "harness-" + hashlib.sha1(os.path.realpath(REPO).encode()).hexdigest()[:10])
     out = os.path.join(ctx["workdir"], "ow-single")
-    with Lock("gobuild-owsingle-" + os.path.basename(hdir)):
-        r = run(["go", "build", "-o", out, "github.com/flowmatters/openwater-core/cmd/ow-single"], cwd=hdir, env=GOENV)
+    try:
+        hdir = HARNESS
+        if os.path.realpath(REPO) != "/repo":
+            # a private copy of the harness module (the shared build/harness-<tag> copies may be removed by other runs)
+            hdir = os.path.join(ctx["workdir"], "harness-owsingle")
+            shutil.rmtree(hdir, ignore_errors=True)
+            shutil.copytree(HARNESS, hdir)
+            gm = open(os.path.join(hdir, "go.mod")).read().replace("=> /repo", "=> " + os.path.realpath(REPO))
+            open(os.path.join(hdir, "go.mod"), "w").write(gm)
+            shutil.copyfile(os.path.join(REPO, "go.sum"), os.path.join(hdir, "go.sum"))
+        with Lock("gobuild-owsingle"):
+            r = run(["go", "build", "-o", out, "github.com/flowmatters/openwater-core/cmd/ow-single"], cwd=hdir, env=GOENV)
+    except OSError as e:
+        raise Internal("could not set up the ow-single build: %s" % e)
     if r.returncode != 0:
         # the tree's ow-single does not build: the runner cannot answer anything
         ctx["info"]["ow_single_build"] = "FAILED: " + (r.stderr or "")[-800:]
@@ -53,28 +61,40 @@ CHECK = Check(
         "a panic in the calling goroutine runs the deferred encodeResults first",
     ],
     assumptions=[
-        "respond_eq_direct / respond_total: the direct run does not itself panic (Kernel.init ok, Kernel.run ok) and "
-        "returns one row per described output with one value per time step; output / state names of the description are distinct",
-        "nesting_spec: the view's stride list is as long as its extents and every in-bounds element is readable "
-        "(both hold for Reach views on a storage that covers them)",
+        "respond_eq_direct: the request names a catalogued model, supplies at least one described input, all supplied "
+        "series have one length T; the direct run (Kernel.init / Kernel.run on the prescribed parameter column and input "
+        "block) does not panic and returns one row of T values per described output; output names and state names of the "
+        "description are distinct (true of the whole catalogue; checked by C09's catalogue tie)",
+        "respond_total: KernelOK — the named model's InitialiseStates and Run never panic and Run fills a rectangular "
+        "block; everything else (any decoded request or decoder error, any lengths incl. 0, any state-row width) is covered",
+        "nesting_spec: the view is reachable (root array with extents ≥ 1 or any chain of in-bounds, possibly stepped "
+        "slices) and lies in a storage window that covers its root shape (ArrOK); any shift dimension inside the rank",
     ],
 )
 
 META = dict(
     category="proof",
-    text="Lean 4 theorems over a hand-written model of the JSON runner: nesting_spec (JsonSafeArray of any view and valid "
-         "shift dimension is the dims-shaped nesting of the elements from that dimension on, non-finite values as the "
-         "strings NaN/+Inf/-Inf), respond_eq_direct (outputs and final states of the response are those of the direct "
-         "one-cell run with named parameters / defaults and supplied / zero inputs), warnings_complete (one log line per "
-         "missing parameter and input, in description order), respond_total (every request — decoded or a decoder error "
-         "— yields exactly one document and returns unless the model's own code panics). The model is tied to the real "
-         "RunSingleModelJSON / JsonSafeArray / ow-single on every run by differential execution in child processes.",
+    text="Lean 4 theorems over a hand-written model of the JSON runner (as repaired): nesting_spec — JsonSafeArray of "
+         "any reachable view and valid shift dimension is the dims-shaped nesting of its elements from that dimension "
+         "on, non-finite values as the strings NaN/+Inf/-Inf (jsonSafeValue_spec); warnings_complete — named value or "
+         "default, supplied series or zeros, exactly one log line per defaulted parameter and zero-filled input in "
+         "description order; encode_spec — encodeResults' reshapes / row slices / JsonSafeArray calls on the n-d array "
+         "model yield the object-or-array document for every nOut, T, W (0 included); respond_eq_direct — the response "
+         "= outputs and all final states of the direct one-cell run, bit for bit; respond_total — every decoded request "
+         "or decoder error yields exactly one document and returns unless the model's own code panics; "
+         "problem_reports / input_problems_reported / kernel_crash_states describe every other ending. The model is "
+         "tied to the real RunSingleModelJSON / JsonSafeArray / ow-single on every run by differential execution in "
+         "child processes, and an independent oracle compares with a direct run through the Go API.",
     design_ref="DESIGN.md §6 C17",
     note="encoding/json trusted; 'all byte strings' sampled for the decoder part (malformed, truncated, corrupted, junk, "
-         "duplicate members, huge numbers) and proved for the decision logic after decoding. The model mirrors "
-         "sim/single.go as repaired by fixes/single_json_validate.diff. Known findings: a panic in a model's own Run "
-         "goroutine (defaults outside the kernel's domain, zero-length series) kills the process (JSON:kernel-panic); "
-         "models with table dimensions cannot be run through the request format (JSON:dimensions).",
-    technique="Lean 4 proof (structural induction over dimensions / description lists) + differential correspondence "
-              "model vs real code in child processes + oracle on the implementation (direct run through the Go API)",
+         "duplicate members, huge numbers, several documents) and proved for the decision logic after decoding. The "
+         "model mirrors sim/single.go as repaired by fixes/single_json_validate.diff (no inputs / unequal lengths → "
+         "error instead of nil dereference / slice panic / silent zero padding; split states only when the state row "
+         "is as wide as the name list, else the full array). Known findings: a panic in a model's own Run goroutine "
+         "(defaults outside the kernel's domain, zero-length series) kills the process (JSON:kernel-panic); models with "
+         "table dimensions cannot be run through the request format (JSON:dimensions).",
+    technique="Lean 4 proof (structural induction over dimensions / description lists; closed forms of reshape, "
+              "unroll, slice on root arrays) + differential correspondence model vs real code in child processes + "
+              "oracle on the implementation (direct run through the Go API) + the real ow-single binary on a sample",
 )
+READY = True
